@@ -595,7 +595,8 @@ pub fn run(ctx: &Ctx, replay: Option<&Value>) -> i32 {
     };
     for (full, depth) in plans {
         let m = M { ctx, inits: inits(), alphabet: alphabet(full), max_nesting: 3, classes: Mutex::new(BTreeMap::new()), contexts: Mutex::new(0) };
-        let st = bfs::bfs(&m, depth, ctx.tier.pick(45.0, 1000.0), 4_000_000);
+        // wall-clock cap = safety net only (a hit is reported as cap_hit / exhaustive = false)
+        let st = bfs::bfs(&m, depth, ctx.tier.pick(600.0, 3600.0), 4_000_000);
         total.states += st.states;
         total.transitions += st.transitions;
         total.duplicates += st.duplicates;
